@@ -43,8 +43,9 @@ def gen_program(rng, tern, force=None):
     recursive = False
     # ---- producers inside a recursive stratum
     prods = force.get("prods") if force else None
+    nonrec = force is None and rng.random() < 0.35       # a third of the programs use tr only non-recursively
     if prods is None:
-        prods = [x for x in ["reach", "step", "sym", "refl", "selfnew"] if rng.random() < 0.3]
+        prods = [] if nonrec else [x for x in ["reach", "step", "sym", "refl", "selfnew"] if rng.random() < 0.3]
     if "reach" in prods:
         # tr(x,y) <-- r(x), f(x,y);  r(y) <-- tr(x,y): facts of tr arrive over many iterations, keys pause and resume
         outs.append(("r", 1))
@@ -80,7 +81,7 @@ def gen_program(rng, tern, force=None):
     chosen = force.get("readers") if force else None
     if chosen is None:
         n = rng.choice([2, 3, 4, 5])
-        chosen = [(rng.choice(subsets), rng.random() < 0.4) for _ in range(n)]
+        chosen = [(rng.choice(subsets), (not nonrec) and rng.random() < 0.4) for _ in range(n)]
     cols = k + ["x", "y"]
     for j, (sub, rec) in enumerate(chosen):
         name = "o%d" % j
